@@ -25,6 +25,14 @@ var atoms = []string{
 	`\uD83D\uDE00`, `[\u{1F600}-\u{1F64F}]`,
 }
 
+// escapes by spelling and magnitude (see workload: escape sequences)
+var escapeAtoms = []string{
+	`\cA`, `\cJ`, `\cZ`, `\cz`, `\x01`, `\x0f`, `\x10`, `\x1f`, `\x7f`, `\xff`, `\0`, `\t`, `\v`, `\f`,
+	`\u0001`, `\u001a`, `\u00ff`, `\u{1}`, `\u{1a}`, `\u{10000}`, `\07`, `\033`, `a`,
+}
+
+var escapeAtoms3 = []string{`\cA`, `\cZ`, `\x0f`, `\x10`, `\u{1a}`, `\0`, `\033`, `a`}
+
 var quants = []string{"*", "+", "?", "{2}", "{1,}", "{1,2}", "*?", "+?", "??", "{2}?", "{1,}?", "{1,2}?"}
 
 var groupOpen = []string{"(", "(?:"}
@@ -330,6 +338,30 @@ func workload(r *ev.Run, thorough bool) []item {
 	for _, p := range corpusPatterns(r) {
 		add(p, "corpus", 0, true)
 	}
+	// escape sequences: the converter rewrites control, hexadecimal, code-point and legacy octal escapes token by
+	// token; every ordered pair (and every triple over a smaller alphabet) of escapes with values below and above 0x10,
+	// 0x80 and 0x10000 stands next to each other as atoms and as class members, so that state carried from one
+	// token to the next shows (the grammar above has one escape of each spelling only)
+	escSeq := 0
+	for _, x := range escapeAtoms {
+		for _, y := range escapeAtoms {
+			for _, p := range []string{"^" + x + y + "$", "[" + x + y + "]", "^[" + x + "]" + y + "$"} {
+				if add(p, "escape-seq", 0, true) {
+					escSeq++
+				}
+			}
+		}
+	}
+	for _, x := range escapeAtoms3 {
+		for _, y := range escapeAtoms3 {
+			for _, z := range escapeAtoms3 {
+				if add("^"+x+y+z+"$", "escape-seq", 0, true) {
+					escSeq++
+				}
+			}
+		}
+	}
+	r.Set("patterns_escape_sequences", escSeq)
 	g := newGram()
 	enumerated := 0
 	// thorough: the length<=4 subject list goes to every pattern of size <= 2 and to
